@@ -263,10 +263,10 @@ def inWindow (c : Client) : Bool :=
   countP_map_eq _ _ _ (inWindow_notifyIf b)
 
 def GrowInv (s : State) : Prop :=
-  s.stop = false → 1 ≤ s.cfg.max → 1 ≤ s.queue.countP isTask → 1 ≤ s.nbThreads + s.clients.countP inWindow
+  s.cfg.startMayFail = false → s.stop = false → 1 ≤ s.cfg.max → 1 ≤ s.queue.countP isTask → 1 ≤ s.nbThreads + s.clients.countP inWindow
 
 theorem GrowInv_init (cfg : Config) (n : Nat) : GrowInv (init cfg n) := by
-  intro h; simp [init] at h
+  intro _ h; simp [init] at h
 
 /-- `nb_threads` is decremented by a worker on retirement (`nb_threads > min ∧ nb_threads > nb_pending_task`) and in the
     exit section of a worker that has not retired. -/
@@ -292,15 +292,15 @@ theorem GrowInv_worker {s s' : State} {i : Nat} {w : Worker} {op : Op} {tmo : Bo
     (hw : s.workers[i]? = some w) (hB : BaseInv s) (hSv : ServInv s) (hI : GrowInv s)
     (h : workerStep s i w op tmo = some s') : GrowInv s' := by
   obtain ⟨hcfg, hstop, ⟨b, hcl⟩, _⟩ := worker_frame h
-  intro hs hm hq
+  intro hnf hs hm hq
   rw [hstop] at hs
-  rw [hcfg] at hm
+  rw [hcfg] at hm hnf
   rw [hcl, countP_inWindow_notify]
   have hq0 : 1 ≤ s.queue.countP isTask := by
     rcases worker_queue_frame h with e | ⟨x, e, _⟩
     · rw [e] at hq; exact hq
     · exact Nat.le_trans hq (countP_isTask_tail e)
-  have hold := hI hs hm hq0
+  have hold := hI hnf hs hm hq0
   rcases worker_threads_frame h with e | ⟨e, eq, ⟨hpc, hret⟩ | ⟨hpc, hcl⟩⟩
   · rw [e]; exact hold
   · have hpend := hB.count.pending
@@ -316,7 +316,7 @@ theorem client_grow_frame {s s' : State} {i : Nat} {c c' : Client} {op : Op} {tm
     (s'.nbThreads = s.nbThreads ∨ s'.nbThreads = s.nbThreads + 1) ∧
     (inWindow c = true → inWindow c' = false →
         s'.stop = true ∨ s'.nbThreads = s.nbThreads + 1 ∨ s.cfg.max ≤ s.nbThreads ∨
-        clamp s.queue.length s.cfg.min s.cfg.max = 0) ∧
+        clamp s.queue.length s.cfg.min s.cfg.max = 0 ∨ s.cfg.startMayFail = true) ∧
     (c.pc = .startClear → inWindow c' = true) ∧
     (∀ t, c.pc = .enqPut t → s'.queue ≠ s.queue → inWindow c' = true ∨ s.nbPending + 1 ≤ s.nbThreads) := by
   have hlt : i < s.clients.length := (List.getElem?_eq_some_iff.mp hc).1
@@ -368,8 +368,8 @@ theorem GrowInv_client {s s' : State} {i : Nat} {c : Client} {op : Op} {tmo : Bo
       s.clients.countP inWindow - (if inWindow c then 1 else 0) + (if inWindow c' then 1 else 0) := by
     rw [hcl]; exact countP_set_map_eq inWindow _ (inWindow_notifyIf _) hc c'
   have hle := countP_ge inWindow hc
-  intro hs hm hq
-  rw [hcfg] at hm
+  intro hnf hs hm hq
+  rw [hcfg] at hm hnf
   rw [hcount]
   by_cases e1 : c.pc = .startClear
   · rw [hclear e1]; simp; omega
@@ -383,18 +383,19 @@ theorem GrowInv_client {s s' : State} {i : Nat} {c : Client} {op : Op} {tmo : Bo
         | (rw [hq'] at hq; exact hq)
         | (rw [hq'] at hq; simpa [List.countP_append, isTask] using hq)
         | exact Nat.le_trans hq (countP_isTask_tail hq')
-      have hold := hI hs0 hm hq0
+      have hold := hI hnf hs0 hm hq0
       by_cases hw : inWindow c = true
       · by_cases hw' : inWindow c' = true
         · simp [hw, hw'] at hle ⊢; omega
         · have hw'' : inWindow c' = false := by simpa using hw'
-          rcases hleave hw hw'' with g | g | g | g
+          rcases hleave hw hw'' with g | g | g | g | g
           · rw [hs] at g; cases g
           · omega
           · omega
           · have hlen := clamp_zero g hm
             have := List.countP_le_length (p := isTask) (l := s.queue)
             omega
+          · rw [hnf] at g; cases g
       · simp [hw] at hle ⊢
         split <;> omega))
     · -- a task has been put in the queue: the growth rule of `enqueue`
